@@ -128,6 +128,10 @@ func runC01(p *Program, r *Result) {
 		checkPayloadHandBack(p, r, pf, succ, ptb)
 	}
 
+	// ---- the writer seals the final chunk once (= R06.6): a file with a second final chunk does not decrypt
+	r.Rule("R01.14", "STREAM writer: one nonce per sealed chunk, the final flag on the last chunk only, nothing sealed after it (= R06.6)", 9)
+	checkStreamWriter(p, r)
+
 	// ---- recipes
 	r.Rule("R01.5-8", "wrap/unwrap, payload key, STREAM and armor recipes of both halves equal the specification table", 40)
 	checkSites(p, r, recipeSites, "C01")
